@@ -44,12 +44,14 @@ func Run(r *mc.Run) {
 		chainx.Explore(r, h, []chainx.ParamCfg{inactCfg()}, []string{"c1:", "s1:", "c1:xfer", "c1:!dsign(s1)"}, 4, 0)
 		// the builder's failure branches (ApplyTransaction error after a state change, nonce gaps behind it, two senders in one block)
 		chainx.Explore(r, h, []chainx.ParamCfg{noForced}, chainx.MenuBuilderPaths, 2, 1)
+		chainx.Explore(r, h, []chainx.ParamCfg{noForced}, chainx.MenuCode, 4, 0)
 		chainx.Explore(r, h, []chainx.ParamCfg{noForced}, chainx.MenuCore, 3, 2)
 		chainx.Explore(r, h, []chainx.ParamCfg{forced}, chainx.MenuCore, 2, 2)
 	} else {
 		r.SetBudget(45 * 60e9)
 		menu := append(append([]string{}, chainx.MenuCore...), chainx.MenuMore...)
 		chainx.Explore(r, h, []chainx.ParamCfg{noForced, freq3}, chainx.MenuBuilderPaths, 3, 2)
+		chainx.Explore(r, h, []chainx.ParamCfg{noForced}, chainx.MenuCode, 6, 1)
 		chainx.Explore(r, h, []chainx.ParamCfg{noForced, freq3, forced}, menu, 4, 3)
 	}
 	if !r.Quick() {
